@@ -14,9 +14,7 @@ pub fn year_window(tax_year_start: i32, disposal_date: NaiveDate) -> Result<bool
             year: tax_year_start + 1,
         },
     )?;
-
-    let year_range = start_date..end_date;
-    Ok(year_range.contains(&disposal_date))
+    Ok(disposal_date >= start_date && disposal_date <= end_date)
 }
 
 // crates/cgt-mcp/src/server.rs explain_matching: `let year = ...;`
